@@ -161,6 +161,24 @@ def gen_budget(rng, n):
     return out
 
 
+def gen_units(rng, n):
+    """mid-size 3-SAT near the threshold PLUS a few unit clauses (and binaries): facts fixed at level 0 that later conflicts must
+    respect.  Return-level traces only (sparse), so that many can be run: what counts is that the model satisfies the units"""
+    out = []
+    for _ in range(n):
+        nv = rng.randint(12, 32)
+        cls = rand_cnf(rng, nv, int(nv * rng.uniform(3.4, 4.3)), 3, 3)
+        for _ in range(rng.randint(1, 4)):
+            v = rng.randint(1, nv)
+            cls.insert(rng.randint(0, len(cls)), [v if rng.random() < 0.5 else -v])
+        for _ in range(rng.randint(0, 3)):
+            a, b = rng.sample(range(1, nv + 1), 2)
+            cls.append([a if rng.random() < 0.5 else -a, b if rng.random() < 0.5 else -b])
+        out.append({"clauses": cls, "assumptions": [], "limit": rng.choice([1, 1, 1, 3]), "max_conflicts": 100000, "max_restarts": 10000,
+                    "luby_factor": rng.choice([100, 100, 3, 1]), "sparse": True})
+    return out
+
+
 def gen_enum(rng, n, small=False):
     """loose formulas with thousands of models, enumerated: blocking clauses accumulate past the reduce_db threshold
     (2000 entries in `learned`) while restarts (luby_factor 1-3) keep calling reduce_db"""
